@@ -112,6 +112,8 @@ func (fv *FuncVC) runOnce() {
 	for _, f := range fn.FreeVars {
 		v := fv.havocVal("fv."+f.Name(), f.Type())
 		fv.params[f.Name()] = v
+		// a free variable is the address of a captured variable: never nil
+		fv.emit("(assert (> " + v.T + " 0))")
 	}
 	fv.entry = fv.cur.clone()
 	entryEnv := fv.entryEnv()
@@ -347,6 +349,7 @@ func (fv *FuncVC) invariantEnv(h *ssa.BasicBlock) *Env {
 			env.vars[k] = v
 		}
 	}
+	fv.bindFreeVars(env, fv.cur)
 	return env
 }
 
